@@ -82,6 +82,7 @@ def build(rom: str, m: str, d: int, place: int, form: str, reloc: str):
     """-> (source, run address of the branch, target run address) or None when the combination cannot be built."""
     head = f"*={place:#08x}\n"
     run = place
+    stored = place          # where the bytes are stored (the address whose file offset receives them)
     if reloc == "reloc_rom":
         run = reloc_target(rom)
         head += f"@={run:#08x}\n"
@@ -96,31 +97,33 @@ def build(rom: str, m: str, d: int, place: int, form: str, reloc: str):
         if run is None:
             return None
         head += f"@={away:#08x}\n.db 0xEA, 0xEA\n*={run:#08x}\n"
+        stored = run
     elif reloc == "reloc_ram":
         run = 0x7E2000
         head += f"@={run:#08x}\n"
     elif reloc == "org_ram":
         run = 0x7F1000
         head = f"*={run:#08x}\n"
+        stored = run
     elif reloc == "reloc_ram_near_storage":
         # code stored at `place`, running from RAM; the target is given relative to the *storage* address
         if form != "numeric":
             return None
         target = place + 2 + d
-        return head + "@=0x7e2000\n" + f"{m} {target:#08x}\n", 0x7E2000, target
+        return head + "@=0x7e2000\n" + f"{m} {target:#08x}\n", 0x7E2000, target, place
     if form == "numeric":
         target = run + 2 + d
         if target < 0:
             return None
-        return head + f"{m} {target:#08x}\n", run, target
+        return head + f"{m} {target:#08x}\n", run, target, stored
     if form == "numeric_bank0":
         # the target is written with 16 bits only (a literal, or a symbol for an address of bank 00): from code in another bank it is far away
         target = (run + 2 + d) & 0xFFFF
         if (run >> 16) == 0 or run + 2 + d < 0:
             return None
         if d % 2:
-            return head + f"{m} {target:#06x}\n", run, target
-        return head + f"stub_q = {target:#06x}\n{m} stub_q\n", run, target
+            return head + f"{m} {target:#06x}\n", run, target, stored
+        return head + f"stub_q = {target:#06x}\n{m} stub_q\n", run, target, stored
     if form == "backward_label_expr":
         # the target is written as a chain of additions and subtractions over another label (left to right: anchor - 8 + 2 = anchor - 6)
         n = -d - 2
@@ -128,26 +131,26 @@ def build(rom: str, m: str, d: int, place: int, form: str, reloc: str):
             return None
         chain = ["anchor - 8 + 2", "anchor - 3 - 3", "anchor + 2 - 8", "anchor - 16 + 12 - 2", "anchor - 2 * 3", "anchor - 4 - 4 + 2"][d % 6]
         src = head + "tgt:\n.db 1, 2, 3, 4, 5, 6\nanchor:\n" + filler(n - 6) + f"{m} {chain}\n"
-        return src, adv(rom, run, n), run
+        return src, adv(rom, run, n), run, adv(rom, stored, n)
     if form == "backward_label_macro":
         # the branch stands in a macro; its target is an argument, and the call site's label names are the macro's parameter names
         n = -d - 2
         if n < 0:
             return None
         src = head + f".macro cdown(loop, exit) {{\n{m} exit\n}}\n" + "loop:\n" + filler(n) + "retry:\ncdown(retry, loop)\n"
-        return src, adv(rom, run, n), run
+        return src, adv(rom, run, n), run, adv(rom, stored, n)
     if form == "backward_label":
         n = -d - 2
         if n < 0:
             return None
         # tgt: at run, filler n bytes, branch at run+n
         src = head + "tgt:\n" + filler(n) + f"{m} tgt\n"
-        return src, adv(rom, run, n), run
+        return src, adv(rom, run, n), run, adv(rom, stored, n)
     n = d
     if n < 0:
         return None
     src = head + f"{m} tgt\n" + filler(n) + "tgt:\n"
-    return src, run, adv(rom, run, n + 2)
+    return src, run, adv(rom, run, n + 2), stored
 
 
 def adv(rom: str, a: int, n: int):
@@ -158,7 +161,7 @@ def judge(res: Res, rom: str, m: str, d: int, place: int, form: str, reloc: str)
     b = build(rom, m, d, place, form, reloc)
     if b is None:
         return
-    src, run, target = b
+    src, run, target, stored = b
     wit = {"rom": rom, "m": m, "d": d, "place": place, "form": form, "reloc": reloc, "src": src}
     res.evals += 1
     if run is None or target is None:
@@ -203,11 +206,20 @@ def judge(res: Res, rom: str, m: str, d: int, place: int, form: str, reloc: str)
         if not r.ok:
             res.violate("valid-branch-rejected", f"{rom}: `{m}` at {run:#x} to {target:#x} (displacement {true_d}) rejected: {r.err_kind}: {r.err_text[:160]}", wit)
             return
-        got = r.blocks[-1][1] if r.blocks else b""     # the block opened by the last *= holds the branch
-        # the branch is the last instruction before trailing filler in the forward form
-        pos = 0 if form in ("forward_label", "numeric", "numeric_bank0") else len(got) - 2
-        if got[pos:pos + 2] != exp:
-            res.violate("wrong-displacement", f"{rom}: `{m}` at {run:#x} to {target:#x} encoded {got[pos:pos + 2].hex()}, expected {exp.hex()} (displacement {true_d})", wit)
+        # the two bytes of the branch are read from the output image at the file offset of the address where they are stored
+        from vf.ref import ips as ipsref
+
+        img = ipsref.Image()
+        for o, blk in r.blocks:
+            if len(blk):
+                img.write(o, bytes(blk))
+        so = rm.offset(cfg, stored) if stored is not None else None
+        enc = img.read(so, 2) if isinstance(so, int) else None
+        if enc is None:
+            res.count("unjudged_storage_unknown")
+            return
+        if enc != exp:
+            res.violate("wrong-displacement", f"{rom}: `{m}` at {run:#x} to {target:#x} encoded {enc.hex()}, expected {exp.hex()} (displacement {true_d})", wit)
             return
         res.see("displacement_bytes", exp[1])
     else:
